@@ -3,6 +3,9 @@ import Labella.Proofs.LayoutSep
 import Labella.Proofs.DistributeLemmas
 import Labella.Proofs.PermLemmas
 import Labella.Proofs.SortEval
+import Labella.Model.EngineT
+import Labella.Proofs.EngineTLemmas
+import Labella.Proofs.EngineTEval
 /-! # C06 — a layout is a pure function of the labels and options
 
 For every label list (ties, identical positions, labels wider than a layer, 1–2 labels) and every option set. -/
@@ -119,5 +122,93 @@ example :
       = [[(5, 2, false, 0, 1), (5, 8, false, 0, 9)]] := by
   rw [← compute'_eq, ← compute'_eq]
   decide +kernel
+
+/-! ### the stateful engine: stale positions, layers and stubs in the node objects do not matter
+
+`Model/EngineT.lean` transliterates the stateful steps of `Force.compute` (shared mutable `Node` objects with `currentPos`,
+`layerIndex`, `parent` / `child` links; `removeStub`, `createStub`, in-place sorts) over a node store. -/
+
+/-- what must hold of the store for an engine's node list (it does in every reachable state): the nodes exist, are pairwise distinct and are labels (no `child`).  NOTHING is assumed about their `cur`, `layerIndex`, `parent` fields, nor about the rest of the store (stale stubs of earlier layouts). -/
+structure Good (s : EngineT.Store) (nodes : List Nat) : Prop where
+  lt : ∀ i ∈ nodes, i < s.size
+  nodup : nodes.Nodup
+  label : ∀ i ∈ nodes, (EngineT.get s i).child = none
+
+theorem Good.toN {s : EngineT.Store} {nodes : List Nat} (h : Good s nodes) : EngineT.GoodN s nodes :=
+  ⟨h.lt, h.nodup, h.label⟩
+
+theorem Good.ofN {s : EngineT.Store} {nodes : List Nat} (h : EngineT.GoodN s nodes) : Good s nodes :=
+  ⟨h.lt, h.nodup, h.label⟩
+
+/-- stale state does not matter: for EVERY store in which the engine's nodes are labels — whatever positions, layer numbers and parent links they carry, whatever else the store holds — what `compute` leaves behind (the layers `getLayers()` reports; for every item its data position, width, stub flag, reported layer index, position, payload)
+is the pure layout `Layout.compute` of the engine's options and the (data position, width) of its nodes -/
+theorem computeT_pure (e : EngineT.Engine) (s : EngineT.Store) (hg : Good s e.nodes) :
+    EngineT.observe (EngineT.computeT e s).2 ((EngineT.computeT e s).1.layers.getD []) =
+      EngineT.observePure e.opts (EngineT.labelsOf s e.nodes) (e.nodes.map (fun i => (EngineT.get s i).data))
+        (Layout.compute e.opts (EngineT.labelsOf s e.nodes)) :=
+  EngineT.computeT_observe e s hg.lt hg.nodup hg.label
+
+/-- and the state it leaves is good again, with the same nodes (reordered by a stable sort on the data position only for algorithm `none`) and unchanged data -/
+theorem computeT_good (e : EngineT.Engine) (s : EngineT.Store) (hg : Good s e.nodes) :
+    Good (EngineT.computeT e s).2 (EngineT.computeT e s).1.nodes ∧
+    (EngineT.computeT e s).1.nodes.Perm e.nodes ∧
+    (e.opts.algorithm ≠ .none → (EngineT.computeT e s).1.nodes = e.nodes) ∧
+    (∀ i ∈ e.nodes, (EngineT.get (EngineT.computeT e s).2 i).ideal = (EngineT.get s i).ideal ∧ (EngineT.get (EngineT.computeT e s).2 i).width = (EngineT.get s i).width ∧ (EngineT.get (EngineT.computeT e s).2 i).data = (EngineT.get s i).data) := by
+  have hf := EngineT.computeT_frame e s
+  have hn := EngineT.computeT_nodes e s
+  refine ⟨Good.ofN (EngineT.computeT_goodN e s hg.toN), hn.1, hn.2, ?_⟩
+  intro i hi
+  exact ⟨hf.ideal i (hg.lt i hi), hf.width i (hg.lt i hi), hf.data i (hg.lt i hi)⟩
+
+/-- every world reachable by ANY history of operations (new engines, re-configuration, fresh nodes, the same node objects registered again, computes) is good -/
+theorem world_good (ops : List EngineT.Op) : Good (EngineT.World.run ops).store (EngineT.World.run ops).engine.nodes :=
+  Good.ofN (EngineT.world_goodN ops).1
+
+/-- hence: the compute that follows ANY history yields the pure layout of the current options and the data of the current nodes -/
+theorem compute_after_any_history (ops : List EngineT.Op) :
+    EngineT.observe (EngineT.computeT (EngineT.World.run ops).engine (EngineT.World.run ops).store).2
+        ((EngineT.computeT (EngineT.World.run ops).engine (EngineT.World.run ops).store).1.layers.getD []) =
+      EngineT.observePure (EngineT.World.run ops).engine.opts
+        (EngineT.labelsOf (EngineT.World.run ops).store (EngineT.World.run ops).engine.nodes)
+        ((EngineT.World.run ops).engine.nodes.map (fun i => (EngineT.get (EngineT.World.run ops).store i).data))
+        (Layout.compute (EngineT.World.run ops).engine.opts
+          (EngineT.labelsOf (EngineT.World.run ops).store (EngineT.World.run ops).engine.nodes)) :=
+  computeT_pure _ _ (world_good ops)
+
+-- non-vacuity: a history with two computes; the second runs under different options on node objects that carry the stubs,
+-- layer numbers and positions of the first (6 labels with a tie; first layout: `overlap`, 3 layers; second: `simple`, 2 layers)
+def staleO1 : FOpts :=
+  { nodeSpacing := 3, lineSpacing := 2, minPos := some 0, maxPos := some 30, algorithm := .overlap, density := 3/4, stubWidth := 1 }
+def staleO2 : FOpts :=
+  { nodeSpacing := 2, lineSpacing := 1, minPos := some 0, maxPos := some 40, algorithm := .simple, density := 3/4, stubWidth := 2 }
+def staleLabels : List Label := [⟨5, 8⟩, ⟨5, 8⟩, ⟨9, 6⟩, ⟨10, 7⟩, ⟨20, 9⟩, ⟨22, 5⟩]
+def staleOps : List EngineT.Op := [.newEngine staleO1, .freshNodes staleLabels, .compute, .setOptions staleO2]
+
+example :
+    -- before the second compute the engine's six nodes carry (parent stub, layer number, position) of the first layout …
+    (EngineT.World.run staleOps).engine.nodes.map (fun i =>
+        ((EngineT.get (EngineT.World.run staleOps).store i).parent,
+          (EngineT.get (EngineT.World.run staleOps).store i).layerIndex,
+          (EngineT.get (EngineT.World.run staleOps).store i).cur)) =
+      [(some 6, 2, 4), (some 8, 2, 15), (some 10, 1, 10), (none, 0, 14), (some 11, 1, 20), (none, 0, 26)] ∧
+    -- … what the second compute reports is what a fresh engine with fresh nodes reports under the second options …
+    ((EngineT.World.run (staleOps ++ [.compute])).outs.getLast? ==
+      (EngineT.World.run [.newEngine staleO2, .freshNodes staleLabels, .compute]).outs.getLast?) = true ∧
+    -- … with new stubs (ids 12–14) next to the six stale ones (ids 6–11) in the store
+    (EngineT.World.run (staleOps ++ [.compute])).engine.layers = some [[0, 12, 2, 13, 4, 14], [1, 3, 5]] := by
+  -- `List.mergeSort` does not reduce in the kernel: evaluate the equal `World.run'` (stable insertion sort)
+  rw [← EngineT.World.run'_eq]
+  decide +kernel
+
+-- the theorem applies to that state (no evaluation needed: every reachable world is good)
+example :
+    EngineT.observe (EngineT.computeT (EngineT.World.run staleOps).engine (EngineT.World.run staleOps).store).2
+        ((EngineT.computeT (EngineT.World.run staleOps).engine (EngineT.World.run staleOps).store).1.layers.getD []) =
+      EngineT.observePure (EngineT.World.run staleOps).engine.opts
+        (EngineT.labelsOf (EngineT.World.run staleOps).store (EngineT.World.run staleOps).engine.nodes)
+        ((EngineT.World.run staleOps).engine.nodes.map (fun i => (EngineT.get (EngineT.World.run staleOps).store i).data))
+        (Layout.compute (EngineT.World.run staleOps).engine.opts
+          (EngineT.labelsOf (EngineT.World.run staleOps).store (EngineT.World.run staleOps).engine.nodes)) :=
+  computeT_pure _ _ (world_good staleOps)
 
 end Labella.C06
